@@ -6,7 +6,8 @@ from fractions import Fraction
 import common, gen, runner, trace, modelcheck, engine, extsolve
 
 THEOREMS = ["Osmt.Properties.C29_unsat_certified", "Osmt.Properties.C29_sat_certified", "Osmt.Smt.unsat_sound"]
-KINDS = ["dl-sum", "dl-coeff", "dl-three", "dl-single", "nonlinear", "int-in-lra", "real-in-lia", "mixed", "uf-arith", "div-mod-real"]
+KINDS = ["dl-sum", "dl-coeff", "dl-three", "dl-single", "nonlinear", "int-in-lra", "real-in-lia", "mixed", "uf-arith", "div-mod-real",
+         "nonlinear-many", "uf-in-arith"]
 
 
 def N(k, real=False):
@@ -23,6 +24,10 @@ def make_case(idx, seed):
         real = logic == "QF_RDL"
     elif kind == "nonlinear":
         logic = rng.choice(["QF_LRA", "QF_LIA", "QF_UFLRA"]); real = "LRA" in logic
+    elif kind == "nonlinear-many":
+        logic = rng.choice(["QF_LRA", "QF_LIA", "QF_UFLRA"]); real = "LRA" in logic
+    elif kind == "uf-in-arith":
+        logic = rng.choice(["QF_LRA", "QF_LIA", "QF_RDL", "QF_IDL"]); real = logic in ("QF_LRA", "QF_RDL")
     elif kind == "int-in-lra":
         logic, real = "QF_LRA", True
     elif kind == "real-in-lia":
@@ -44,6 +49,8 @@ def make_case(idx, seed):
         decls = ["(declare-fun x () Int)", "(declare-fun y () Real)", "(declare-fun z () Int)", "(declare-fun w () Real)", "(declare-fun b () Bool)"]
     if "UF" in logic and kind != "uf-arith":
         decls.append(f"(declare-fun f ({S}) {S})")
+    if kind == "uf-in-arith":
+        decls += [f"(declare-fun f ({S}) {S})", f"(declare-fun p ({S}) Bool)"]
 
     def c():
         return N(rng.randint(-4, 4), real)
@@ -67,6 +74,17 @@ def make_case(idx, seed):
         if kind == "nonlinear":
             return rng.choice([f"({op} (* {a} {b2}) {c()})", f"({op} (* {a} {a}) {c()})", f"({op} (* {a} (+ {b2} {c()})) {d})",
                                f"({op} (/ {a} {b2}) {c()})" if real else f"({op} (div {a} {b2}) {c()})", f"({op} (* {k} {a}) {c()})"])
+        if kind == "nonlinear-many":
+            s1, s2 = f"(+ {a} {c()})", f"(- {b2} {c()})"
+            return rng.choice([f"({op} (* {k} {s1} {s2}) {c()})", f"({op} (* {s1} {k} {d}) {c()})", f"({op} (* {s1} {s2}) {c()})",
+                               f"({op} (* {k} {d} {s1}) {c()})", f"({op} (* {s1} (* {k} {d})) {c()})", f"({op} (* {k} {s1} {N(3, real)}) {c()})",
+                               f"({op} (* {s1} {s2} {k}) {d})"])
+        if kind == "uf-in-arith":
+            if logic in ("QF_RDL", "QF_IDL"):
+                return rng.choice([f"(p {a})", f"(not (p {b2}))", f"(<= (- {a} {b2}) 0)" if not real else f"(<= (- {a} {b2}) 0.0)",
+                                   f"(<= (- {b2} {a}) 0)" if not real else f"(<= (- {b2} {a}) 0.0)", f"(= (f {a}) (f {b2}))", f"(not (= (f {a}) (f {b2})))"])
+            return rng.choice([f"(p {a})", f"(not (p {b2}))", f"(<= {a} {b2})", f"(<= {b2} {a})", f"(not (= (f {a}) (f {b2})))",
+                               f"({op} (f {a}) {c()})", f"(= (f {a}) {b2})", f"(p (f {a}))", f"(not (p (+ {b2} {c()})))"])
         if kind == "int-in-lra":
             return rng.choice([f"(and (< {N(0, True)} (* 2.0 z)) (< (* 2.0 z) {N(2, True)}))", "(and (< 0 x) (< x 1))", "(and (< 0 (* 2 x)) (< (* 2 x) 2))",
                                f"({op} (+ x y) {N(rng.randint(-3, 3))})", "(= (* 2 x) 1)", f"({op} (- z w) {c()})"])
@@ -139,6 +157,43 @@ def run_case(args):
         except Exception as e:
             res["problems"].append({"what": f"trace machinery failed: {e!r}", "kind": "machinery"})
     tp.unlink(missing_ok=True)
+    # unsat answers again: the Lean machine certifies the refutation of the terms the front end *built*; whether the accepted
+    # assertions as written have a model is asked of z3 (untrusted) and every proposed model is validated by the Lean evaluator
+    if "unsat" in res["answers"] and not res["problems"]:
+        try:
+            import smtlib, c13
+            sxs = smtlib.parse_sexps(case["script"])
+            sc = smtlib.Script(case["script"])
+            al, extra = modelcheck.align_outputs(sc, out)
+            if al is not None:
+                rejected = {i for i, name, o in al if modelcheck.is_error(o)}
+                answer_of = {i: smtlib.sym(o) for i, name, o in al if name == "check-sat" and o is not None and not isinstance(o, list)}
+                decls, stack, logic_line = [], [[]], None
+                for i, sx in enumerate(sxs):
+                    name = smtlib.sym(sx[0])
+                    if name == "set-logic":
+                        logic_line = smtlib.unparse(sx)
+                    if i in rejected and name != "check-sat":
+                        continue
+                    if name in ("declare-fun", "declare-const", "declare-sort"):
+                        decls.append(smtlib.unparse(sx))
+                    elif name == "assert":
+                        stack[-1].append(smtlib.unparse(sx[1]))
+                    elif name == "push":
+                        stack += [[] for _ in range(int(smtlib.sym(sx[1])) if len(sx) > 1 else 1)]
+                    elif name == "pop":
+                        for _ in range(int(smtlib.sym(sx[1])) if len(sx) > 1 else 1):
+                            if len(stack) > 1:
+                                stack.pop()
+                    elif name == "check-sat" and answer_of.get(i) == "unsat":
+                        texts = [t for fr in stack for t in fr]
+                        if texts and c13.z3_validated_model(decls, logic_line, texts) is True:
+                            res["problems"].append({"what": "an unsat answer although the accepted assertions have a model (proposed by z3, validated by "
+                                                            "the Lean evaluator): the front end built other terms than the ones written",
+                                                    "kind": "unsat", "assertions": texts})
+                            break
+        except Exception as e:
+            res["machinery_note"] = repr(e)
     return res
 
 
